@@ -925,6 +925,14 @@ func (y *IfFeature) Evaluate(enabled map[string]*Feature) (bool, error) {
 		features: enabled,
 		expr:     y.expr,
 	}
+	if y.parent != nil {
+		if m := RootModule(y.parent); m != nil {
+			e.prefix = m.Prefix()
+		}
+	}
+	if !e.wellFormed() {
+		return false, errors.New("syntax err in feature expression:" + y.expr)
+	}
 	e.eval(false)
 	b := e.pop()
 	err := e.lastErr
@@ -940,6 +948,71 @@ type ifFeatureEval struct {
 	stack    []bool
 	pos      int
 	lastErr  error
+
+	// prefix of module expression is in, features can be written with it
+	prefix string
+}
+
+// wellFormed checks the expression against the grammar in RFC7950 Sec 7.20.2 because
+// evaluating assumes a valid expression:
+//
+//	expr   = term ["or" expr]
+//	term   = factor ["and" term]
+//	factor = "not" factor / "(" expr ")" / feature-name
+func (y *ifFeatureEval) wellFormed() bool {
+	var tokens []string
+	for {
+		tok := y.next()
+		if tok == "" {
+			break
+		}
+		tokens = append(tokens, tok)
+	}
+	y.pos = 0
+	i := 0
+	var expr, term, factor func() bool
+	expr = func() bool {
+		if !term() {
+			return false
+		}
+		if i < len(tokens) && tokens[i] == "or" {
+			i++
+			return expr()
+		}
+		return true
+	}
+	term = func() bool {
+		if !factor() {
+			return false
+		}
+		if i < len(tokens) && tokens[i] == "and" {
+			i++
+			return term()
+		}
+		return true
+	}
+	factor = func() bool {
+		if i >= len(tokens) {
+			return false
+		}
+		switch tokens[i] {
+		case "not":
+			i++
+			return factor()
+		case "(":
+			i++
+			if !expr() || i >= len(tokens) || tokens[i] != ")" {
+				return false
+			}
+			i++
+			return true
+		case ")", "and", "or":
+			return false
+		}
+		i++
+		return true
+	}
+	return expr() && i == len(tokens)
 }
 
 func (y *ifFeatureEval) eval(greedy bool) {
@@ -962,6 +1035,9 @@ func (y *ifFeatureEval) eval(greedy bool) {
 			a, b := y.pop(), y.pop()
 			y.push(a || b)
 		default:
+			if y.prefix != "" && strings.HasPrefix(tok, y.prefix+":") {
+				tok = tok[len(y.prefix)+1:]
+			}
 			_, found := y.features[tok]
 			y.push(found)
 		}
@@ -978,8 +1054,10 @@ func (y *ifFeatureEval) end() bool {
 
 func (y *ifFeatureEval) eatws() {
 	for !y.end() {
-		if y.expr[y.pos] != ' ' {
-			break
+		switch y.expr[y.pos] {
+		case ' ', '\t', '\n', '\r':
+		default:
+			return
 		}
 		y.pos++
 	}
@@ -990,7 +1068,7 @@ func (y *ifFeatureEval) next() string {
 	start := y.pos
 	for !y.end() {
 		switch y.expr[y.pos] {
-		case ' ':
+		case ' ', '\t', '\n', '\r':
 			goto brk
 		case '(', ')':
 			if y.pos == start {
